@@ -2,6 +2,8 @@ package main
 
 import (
 	"fmt"
+	"io"
+	"runtime"
 	"strings"
 
 	"github.com/moorara/algo/automata"
@@ -9,6 +11,7 @@ import (
 	"github.com/moorara/algo/grammar"
 	"github.com/moorara/algo/hash"
 	"github.com/moorara/algo/heap"
+	"github.com/moorara/algo/lexer/input"
 	"github.com/moorara/algo/list"
 	"github.com/moorara/algo/parser/lr"
 	"github.com/moorara/algo/parser/lr/canonical"
@@ -26,11 +29,15 @@ import (
 // mixedOrder: in the `mixed` workload goroutine g runs mixedOrder[(g+seed) mod n], so different
 // packages' entry points run against one another.
 var mixedOrder = []string{"hashtable-iterate", "lr-slr", "set-iterate", "automata-determinize", "first-follow",
-	"lr-lalr", "grammar-transform", "ll1-table", "lr-canonical", "structures", "hash-api"}
+	"lr-lalr", "grammar-transform", "ll1-table", "lr-canonical", "structures", "hash-api", "ordered-tables",
+	"tries", "heaps", "lexer-input"}
 
 func init() {
 	workloads["hashtable-iterate"] = wHashTables
+	workloads["ordered-tables"] = wOrderedTables
 	workloads["set-iterate"] = wSets
+	workloads["tries"] = wTries
+	workloads["heaps"] = wHeaps
 	workloads["first-follow"] = wFirstFollow
 	workloads["grammar-transform"] = wGrammarTransform
 	workloads["ll1-table"] = wLL1
@@ -38,60 +45,167 @@ func init() {
 	workloads["lr-lalr"] = func(s uint64) *result { return wLR(s, "lalr") }
 	workloads["lr-canonical"] = func(s uint64) *result { return wLR(s, "canonical") }
 	workloads["automata-determinize"] = wAutomata
+	workloads["lexer-input"] = wLexerInput
 	workloads["structures"] = wStructures
 	workloads["hash-api"] = wHashAPI
 }
 
+// yield lets the other goroutines run: with it the goroutines interleave inside the fill loops at every
+// GOMAXPROCS (at GOMAXPROCS=1 they would otherwise run one after the other between preemptions).
+func yield() { runtime.Gosched() }
+
+// sizes the collections are filled to: the empty-ish case, just past the small fixed capacities
+// (31/64-entry tables and caches), a few re-sizes further, and large.
+var sizeClasses = []int{1, 70, 200, 1000}
+
+func pickSize(r *rng, max int) int {
+	for {
+		if n := sizeClasses[r.intn(len(sizeClasses))]; n <= max {
+			return n
+		}
+	}
+}
+
+// longName returns a name of more than 40 bytes (longer than any small-string fast path or fixed
+// scratch buffer), different for different i and salts.
+func longName(prefix string, salt uint64, i int) string {
+	return fmt.Sprintf("%s_%08d_%016x_abcdefghijklmnopqrstuvwxyz", prefix, i, salt*0x9E3779B97F4A7C15+uint64(i))
+}
+
+// namer gives short names for even salts and long ones for odd salts, so both paths are exercised.
+func namer(long bool, salt uint64) func(prefix string, i int) string {
+	if long {
+		return func(prefix string, i int) string { return longName(prefix, salt, i) }
+	}
+	return func(prefix string, i int) string { return fmt.Sprintf("%s%d", prefix, i) }
+}
+
 // ---------------------------------------------------------------- hash tables
+
+func hashTableKinds[K, V any](h func() hash.HashFunc[K], eqK generic.EqualFunc[K], eqV generic.EqualFunc[V]) []func() symboltable.SymbolTable[K, V] {
+	// every goroutine makes its OWN hash functions (a HashFunc keeps a hasher: sharing one would be
+	// sharing an instance, which the property excludes)
+	return []func() symboltable.SymbolTable[K, V]{
+		func() symboltable.SymbolTable[K, V] {
+			return symboltable.NewChainHashTable(h(), eqK, eqV, symboltable.HashOpts{})
+		},
+		func() symboltable.SymbolTable[K, V] {
+			return symboltable.NewLinearHashTable(h(), eqK, eqV, symboltable.HashOpts{})
+		},
+		func() symboltable.SymbolTable[K, V] {
+			return symboltable.NewQuadraticHashTable(h(), eqK, eqV, symboltable.HashOpts{})
+		},
+		func() symboltable.SymbolTable[K, V] {
+			return symboltable.NewDoubleHashTable(h(), eqK, eqV, symboltable.HashOpts{})
+		},
+	}
+}
 
 func wHashTables(seed uint64) *result {
 	r := newRng(seed)
 	res := &result{}
 	eqI := generic.NewEqualFunc[int]()
 	eqS := generic.NewEqualFunc[string]()
-	// every goroutine makes its OWN hash function (a HashFunc keeps a hasher: sharing one would be
-	// sharing an instance, which the property excludes)
-	mk := []func() symboltable.SymbolTable[int, string]{
-		func() symboltable.SymbolTable[int, string] {
-			return symboltable.NewChainHashTable(hash.HashFuncForInt[int](nil), eqI, eqS, symboltable.HashOpts{})
-		},
-		func() symboltable.SymbolTable[int, string] {
-			return symboltable.NewLinearHashTable(hash.HashFuncForInt[int](nil), eqI, eqS, symboltable.HashOpts{})
-		},
-		func() symboltable.SymbolTable[int, string] {
-			return symboltable.NewQuadraticHashTable(hash.HashFuncForInt[int](nil), eqI, eqS, symboltable.HashOpts{})
-		},
-		func() symboltable.SymbolTable[int, string] {
-			return symboltable.NewDoubleHashTable(hash.HashFuncForInt[int](nil), eqI, eqS, symboltable.HashOpts{})
-		},
-	}
-	n := 20 + r.intn(60)
-	keys := make([]int, n)
-	for i := range keys {
-		keys[i] = r.intn(500)
-	}
-	for ti, f := range mk {
+
+	// int keys: grow through several re-sizes, shrink again, iterate
+	for ti, f := range hashTableKinds[int, string](func() hash.HashFunc[int] { return hash.HashFuncForInt[int](nil) }, eqI, eqS) {
+		n := pickSize(r, 1000)
+		keys := make([]int, n)
+		for i := range keys {
+			keys[i] = r.intn(4*n + 10)
+		}
 		t, u := f(), f()
-		for _, k := range keys {
+		for i, k := range keys {
 			t.Put(k, fmt.Sprint("v", k))
 			u.Put(k, fmt.Sprint("v", k))
+			if i%4 == 0 {
+				yield()
+			}
 		}
-		for i := 0; i < n/4; i++ {
-			t.Delete(keys[i])
-			u.Delete(keys[i])
-		}
-		for round := 0; round < 3; round++ {
+		res.add("int table %d n=%d size %d equal %v", ti, n, t.Size(), t.Equal(u))
+		for round := 0; round < 2; round++ {
 			var kvs []string
 			for k, v := range t.All() {
 				kvs = append(kvs, fmt.Sprint(k, "=", v))
 			}
-			res.add("table %d all %s", ti, sortedJoin(kvs))
+			res.add("int table %d all %s", ti, sortedJoin(kvs))
+			yield()
 		}
-		res.add("table %d size %d equal %v", ti, t.Size(), t.Equal(u))
-		res.add("table %d any %v allm %v", ti, t.AnyMatch(func(k int, _ string) bool { return k%7 == 0 }),
-			t.AllMatch(func(k int, _ string) bool { return k >= 0 }))
+		for i := 0; i < 3*n/4; i++ {
+			t.Delete(keys[i])
+			if i%8 == 0 {
+				yield()
+			}
+		}
+		res.add("int table %d after-delete size %d any %v allm %v", ti, t.Size(),
+			t.AnyMatch(func(k int, _ string) bool { return k%7 == 0 }), t.AllMatch(func(k int, _ string) bool { return k >= 0 }))
 		sel := t.SelectMatch(func(k int, _ string) bool { return k%2 == 0 })
-		res.add("table %d select %d strlen %d", ti, sel.Size(), len(t.String()))
+		res.add("int table %d select %d strlen %d", ti, sel.Size(), len(t.String()))
+	}
+
+	// string keys, short or longer than 40 bytes
+	name := namer(seed%2 == 1, seed)
+	for ti, f := range hashTableKinds[string, int](func() hash.HashFunc[string] { return hash.HashFuncForString[string](nil) }, eqS, eqI) {
+		n := pickSize(r, 200)
+		t := f()
+		for i := 0; i < n; i++ {
+			t.Put(name("key", r.intn(2*n+3)), i)
+			if i%4 == 0 {
+				yield()
+			}
+		}
+		var ks []string
+		for k, v := range t.All() {
+			ks = append(ks, fmt.Sprint(k, "=", v))
+		}
+		res.add("str table %d n=%d size %d all %s", ti, n, t.Size(), sortedJoin(ks))
+		hits := 0
+		for i := 0; i < 2*n+3; i++ {
+			if _, ok := t.Get(name("key", i)); ok {
+				hits++
+			}
+		}
+		res.add("str table %d hits %d", ti, hits)
+	}
+	return res
+}
+
+// ---------------------------------------------------------------- ordered symbol tables
+
+func wOrderedTables(seed uint64) *result {
+	r := newRng(seed)
+	res := &result{}
+	eqI := generic.NewEqualFunc[int]()
+	cmpS := generic.NewCompareFunc[string]()
+	name := namer(seed%2 == 1, seed)
+	for ti, t := range []symboltable.OrderedSymbolTable[string, int]{
+		symboltable.NewBST[string, int](cmpS, eqI), symboltable.NewAVL[string, int](cmpS, eqI), symboltable.NewRedBlack[string, int](cmpS, eqI)} {
+		n := pickSize(r, 1000)
+		keys := make([]string, n)
+		for i := range keys {
+			keys[i] = name("k", r.intn(3*n+5))
+			t.Put(keys[i], i)
+			if i%8 == 0 {
+				yield()
+			}
+		}
+		for i := 0; i < n/3; i++ {
+			t.Delete(keys[i])
+		}
+		mn, _, _ := t.Min()
+		mx, _, _ := t.Max()
+		fl, _, _ := t.Floor(name("k", n))
+		sel, _, _ := t.Select(t.Size() / 2)
+		res.add("ordered %d n=%d size %d height-positive %v min %s max %s floor %s select %s rank %d", ti, n, t.Size(),
+			t.Height() >= 0, mn, mx, fl, sel, t.Rank(name("k", n)))
+		var ks []string
+		for k := range t.All() {
+			ks = append(ks, k)
+		}
+		res.add("ordered %d keys %s", ti, strings.Join(ks, ","))
+		t.DeleteMin()
+		t.DeleteMax()
+		res.add("ordered %d range %d", ti, t.RangeSize(name("k", 0), name("k", n)))
 	}
 	return res
 }
@@ -108,26 +222,34 @@ func wSets(seed uint64) *result {
 		func(vals ...int) set.Set[int] { return set.NewStable(eq, vals...) },
 		func(vals ...int) set.Set[int] { return set.NewSorted(cmp, vals...) },
 	}
-	for si, f := range mk {
-		a, b := f(), f()
-		for i := 0; i < 10+r.intn(30); i++ {
-			a.Add(r.intn(40))
-			b.Add(r.intn(40))
+	members := func(s set.Set[int]) string {
+		var ms []string
+		for v := range s.All() {
+			ms = append(ms, fmt.Sprint(v))
 		}
-		members := func(s set.Set[int]) string {
-			var ms []string
-			for v := range s.All() {
-				ms = append(ms, fmt.Sprint(v))
+		return sortedJoin(ms)
+	}
+	for si, f := range mk {
+		n := pickSize(r, 1000)
+		a, b := f(), f()
+		for i := 0; i < n; i++ {
+			a.Add(r.intn(2*n + 3))
+			b.Add(r.intn(2*n + 3))
+			if i%8 == 0 {
+				yield()
 			}
-			return sortedJoin(ms)
 		}
 		for round := 0; round < 3; round++ {
-			res.add("set %d a %s", si, members(a))
+			res.add("set %d n=%d a %s", si, n, members(a))
+			yield()
 		}
 		res.add("set %d union %s", si, members(a.Union(b)))
+		yield()
 		res.add("set %d inter %s", si, members(a.Intersection(b)))
 		res.add("set %d diff %s", si, members(a.Difference(b)))
-		res.add("set %d sub %v eq %v", si, a.Intersection(b).IsSubset(a), a.Equal(a.Clone()))
+		res.add("set %d sub %v eq %v contains %v", si, a.Intersection(b).IsSubset(a), a.Equal(a.Clone()), a.Contains(1, 2))
+		sel := a.SelectMatch(func(v int) bool { return v%3 == 0 })
+		res.add("set %d select %d any %v strlen %d", si, sel.Size(), a.AnyMatch(func(v int) bool { return v == 5 }), len(a.String()))
 		small := f(1, 2, 3, 4)
 		ps := set.Powerset(small)
 		var sizes []string
@@ -136,6 +258,102 @@ func wSets(seed uint64) *result {
 		}
 		res.add("set %d powerset %d %s", si, ps.Size(), sortedJoin(sizes))
 		res.add("set %d partitions %d", si, set.Partitions(small).Size())
+	}
+	// sets of (long) strings
+	name := namer(seed%2 == 1, seed)
+	eqS := generic.NewEqualFunc[string]()
+	ss := set.New(eqS)
+	n := pickSize(r, 200)
+	for i := 0; i < n; i++ {
+		ss.Add(name("m", r.intn(2*n+3)))
+	}
+	var ms []string
+	for v := range ss.All() {
+		ms = append(ms, v)
+	}
+	res.add("strset n=%d %s", n, sortedJoin(ms))
+	return res
+}
+
+// ---------------------------------------------------------------- tries
+
+func wTries(seed uint64) *result {
+	r := newRng(seed)
+	res := &result{}
+	eqI := generic.NewEqualFunc[int]()
+	name := namer(seed%2 == 1, seed)
+	for ti, t := range []trie.Trie[int]{trie.NewBinary[int](eqI), trie.NewPatricia[int](eqI)} {
+		n := pickSize(r, 200)
+		keys := make([]string, n)
+		for i := range keys {
+			keys[i] = name("w", r.intn(3*n+5))
+			t.Put(keys[i], i)
+			if i%8 == 0 {
+				yield()
+			}
+		}
+		for i := 0; i < n/4; i++ {
+			t.Delete(keys[i])
+		}
+		mn, _, _ := t.Min()
+		mx, _, _ := t.Max()
+		res.add("trie %d n=%d size %d min %s max %s rank %d prefix %d", ti, n, t.Size(), mn, mx, t.Rank(name("w", n)), len(t.WithPrefix("w")))
+		var ks []string
+		for k, v := range t.All() {
+			ks = append(ks, fmt.Sprint(k, "=", v))
+		}
+		res.add("trie %d all %s", ti, sortedJoin(ks))
+	}
+	return res
+}
+
+// ---------------------------------------------------------------- heaps
+
+func wHeaps(seed uint64) *result {
+	r := newRng(seed)
+	res := &result{}
+	cmpI := generic.NewCompareFunc[int]()
+	eqS := generic.NewEqualFunc[string]()
+	name := namer(seed%2 == 1, seed)
+	n := pickSize(r, 1000)
+	keys := make([]int, n)
+	for i := range keys {
+		keys[i] = r.intn(10 * n)
+	}
+	for hi, h := range []heap.Heap[int, string]{heap.NewBinary[int, string](2, cmpI, eqS), heap.NewBinomial[int, string](cmpI, eqS), heap.NewFibonacci[int, string](cmpI, eqS)} {
+		for i, k := range keys {
+			h.Insert(k, name("v", k))
+			if i%8 == 0 {
+				yield()
+			}
+		}
+		var out []string
+		for i := 0; i < n/2+1; i++ {
+			k, v, ok := h.Delete()
+			out = append(out, fmt.Sprint(k, v[:2], ok))
+		}
+		pk, _, _ := h.Peek()
+		res.add("heap %d n=%d size %d peek %d has %v out %s", hi, n, h.Size(), pk, h.ContainsKey(keys[0]), strings.Join(out, ","))
+	}
+	for hi, h := range []heap.IndexedHeap[int, string]{heap.NewIndexedBinary[int, string](n, cmpI, eqS), heap.NewIndexedBinomial[int, string](n, cmpI, eqS), heap.NewIndexedFibonacci[int, string](n, cmpI, eqS)} {
+		for i, k := range keys {
+			h.Insert(i, k, name("v", k))
+			if i%8 == 0 {
+				yield()
+			}
+		}
+		for i := 0; i < n; i += 3 {
+			h.ChangeKey(i, keys[i]/2)
+		}
+		for i := 1; i < n; i += 5 {
+			h.DeleteIndex(i)
+		}
+		var out []string
+		for i := 0; i < n/3+1; i++ {
+			idx, k, _, ok := h.Delete()
+			out = append(out, fmt.Sprint(idx, ":", k, ok))
+		}
+		res.add("indexed %d n=%d size %d has0 %v out %s", hi, n, h.Size(), h.ContainsIndex(0), strings.Join(out, ","))
 	}
 	return res
 }
@@ -151,46 +369,69 @@ type gspec struct {
 
 func (g gspec) build() *grammar.CFG { return grammar.NewCFG(g.terms, g.nonTerms, g.prods, g.start) }
 
-func prod(head string, body ...grammar.Symbol) *grammar.Production {
-	return &grammar.Production{Head: grammar.NonTerminal(head), Body: grammar.String[grammar.Symbol](body)}
+func prod(head grammar.NonTerminal, body ...grammar.Symbol) *grammar.Production {
+	return &grammar.Production{Head: head, Body: grammar.String[grammar.Symbol](body)}
 }
 
-// fixture returns a private copy of one of the textbook grammars, with a seed-specific suffix on
-// every terminal so that different goroutines hash different strings.
-func fixture(i int, sfx string) gspec {
+// fixture returns a private copy of one of the textbook grammars.  Terminal and non-terminal names
+// get a seed-specific suffix; with long=true every name is longer than 40 bytes.
+func fixture(i int, salt uint64, long bool) gspec {
+	sfx := fmt.Sprint("_", salt%97)
+	if long {
+		sfx = fmt.Sprintf("_%016x_abcdefghijklmnopqrstuvwxyz0123456789", salt*0x9E3779B97F4A7C15)
+	}
 	t := func(s string) grammar.Terminal { return grammar.Terminal(s + sfx) }
-	n := func(s string) grammar.NonTerminal { return grammar.NonTerminal(s) }
-	switch i % 4 {
+	n := func(s string) grammar.NonTerminal {
+		if long {
+			return grammar.NonTerminal(s + sfx)
+		}
+		return grammar.NonTerminal(s)
+	}
+	switch i % 5 {
 	case 0: // S → C C ; C → c C | d          (LR(1), LALR, SLR)
-		return gspec{[]grammar.Terminal{t("c"), t("d")}, []grammar.NonTerminal{"S", "C"}, []*grammar.Production{
-			prod("S", n("C"), n("C")), prod("C", t("c"), n("C")), prod("C", t("d"))}, "S"}
+		return gspec{[]grammar.Terminal{t("c"), t("d")}, []grammar.NonTerminal{n("S"), n("C")}, []*grammar.Production{
+			prod(n("S"), n("C"), n("C")), prod(n("C"), t("c"), n("C")), prod(n("C"), t("d"))}, n("S")}
 	case 1: // E → E + T | T ; T → T * F | F ; F → ( E ) | id     (SLR)
-		return gspec{[]grammar.Terminal{t("+"), t("*"), t("("), t(")"), t("id")}, []grammar.NonTerminal{"E", "T", "F"},
-			[]*grammar.Production{prod("E", n("E"), t("+"), n("T")), prod("E", n("T")), prod("T", n("T"), t("*"), n("F")),
-				prod("T", n("F")), prod("F", t("("), n("E"), t(")")), prod("F", t("id"))}, "E"}
+		return gspec{[]grammar.Terminal{t("+"), t("*"), t("("), t(")"), t("id")}, []grammar.NonTerminal{n("E"), n("T"), n("F")},
+			[]*grammar.Production{prod(n("E"), n("E"), t("+"), n("T")), prod(n("E"), n("T")), prod(n("T"), n("T"), t("*"), n("F")),
+				prod(n("T"), n("F")), prod(n("F"), t("("), n("E"), t(")")), prod(n("F"), t("id"))}, n("E")}
 	case 2: // S → L = R | R ; L → * R | id ; R → L     (LALR, not SLR)
-		return gspec{[]grammar.Terminal{t("="), t("*"), t("id")}, []grammar.NonTerminal{"S", "L", "R"},
-			[]*grammar.Production{prod("S", n("L"), t("="), n("R")), prod("S", n("R")), prod("L", t("*"), n("R")),
-				prod("L", t("id")), prod("R", n("L"))}, "S"}
-	default: // E → T E′ ; E′ → + T E′ | ε ; T → F T′ ; T′ → * F T′ | ε ; F → ( E ) | id     (LL(1))
-		return gspec{[]grammar.Terminal{t("+"), t("*"), t("("), t(")"), t("id")}, []grammar.NonTerminal{"E", "E′", "T", "T′", "F"},
-			[]*grammar.Production{prod("E", n("T"), n("E′")), prod("E′", t("+"), n("T"), n("E′")), prod("E′"),
-				prod("T", n("F"), n("T′")), prod("T′", t("*"), n("F"), n("T′")), prod("T′"),
-				prod("F", t("("), n("E"), t(")")), prod("F", t("id"))}, "E"}
+		return gspec{[]grammar.Terminal{t("="), t("*"), t("id")}, []grammar.NonTerminal{n("S"), n("L"), n("R")},
+			[]*grammar.Production{prod(n("S"), n("L"), t("="), n("R")), prod(n("S"), n("R")), prod(n("L"), t("*"), n("R")),
+				prod(n("L"), t("id")), prod(n("R"), n("L"))}, n("S")}
+	case 3: // E → T E′ ; E′ → + T E′ | ε ; T → F T′ ; T′ → * F T′ | ε ; F → ( E ) | id     (LL(1))
+		return gspec{[]grammar.Terminal{t("+"), t("*"), t("("), t(")"), t("id")}, []grammar.NonTerminal{n("E"), n("E′"), n("T"), n("T′"), n("F")},
+			[]*grammar.Production{prod(n("E"), n("T"), n("E′")), prod(n("E′"), t("+"), n("T"), n("E′")), prod(n("E′")),
+				prod(n("T"), n("F"), n("T′")), prod(n("T′"), t("*"), n("F"), n("T′")), prod(n("T′")),
+				prod(n("F"), t("("), n("E"), t(")")), prod(n("F"), t("id"))}, n("E")}
+	default: // a larger SLR expression grammar (more than 33 LR states: the ACTION/GOTO tables re-size)
+		return gspec{[]grammar.Terminal{t("+"), t("-"), t("*"), t("/"), t("%"), t("^"), t("("), t(")"), t("["), t("]"), t("id"), t("num"), t("neg"), t(",")},
+			[]grammar.NonTerminal{n("E"), n("T"), n("P"), n("F"), n("L")},
+			[]*grammar.Production{
+				prod(n("E"), n("E"), t("+"), n("T")), prod(n("E"), n("E"), t("-"), n("T")), prod(n("E"), n("T")),
+				prod(n("T"), n("T"), t("*"), n("P")), prod(n("T"), n("T"), t("/"), n("P")), prod(n("T"), n("T"), t("%"), n("P")), prod(n("T"), n("P")),
+				prod(n("P"), n("F"), t("^"), n("P")), prod(n("P"), n("F")),
+				prod(n("F"), t("("), n("E"), t(")")), prod(n("F"), t("id")), prod(n("F"), t("num")), prod(n("F"), t("neg"), n("F")),
+				prod(n("F"), t("id"), t("["), n("L"), t("]")),
+				prod(n("L"), n("L"), t(","), n("E")), prod(n("L"), n("E"))}, n("E")}
 	}
 }
 
 // randomGrammar: every non-terminal has a production starting with a terminal (so it is productive),
 // further bodies are random; some ε-productions (never as the only production).
-func randomGrammar(r *rng) gspec {
+func randomGrammar(r *rng, long bool, salt uint64) gspec {
 	nt := 2 + r.intn(4)
 	tt := 2 + r.intn(4)
+	if r.intn(3) == 0 { // a wide grammar: the production / FIRST / FOLLOW tables re-size
+		nt, tt = 40+r.intn(10), 36+r.intn(10)
+	}
+	name := namer(long, salt)
 	var g gspec
 	for i := 0; i < tt; i++ {
-		g.terms = append(g.terms, grammar.Terminal(fmt.Sprintf("t%d_%d", i, r.intn(1000))))
+		g.terms = append(g.terms, grammar.Terminal(name("t", i)))
 	}
 	for i := 0; i < nt; i++ {
-		g.nonTerms = append(g.nonTerms, grammar.NonTerminal(fmt.Sprintf("N%d", i)))
+		g.nonTerms = append(g.nonTerms, grammar.NonTerminal(name("N", i)))
 	}
 	g.start = g.nonTerms[0]
 	sym := func() grammar.Symbol {
@@ -217,8 +458,9 @@ func randomGrammar(r *rng) gspec {
 
 func firstFollowLines(res *result, G *grammar.CFG, nonTerms []grammar.NonTerminal) {
 	first := G.ComputeFIRST()
+	yield()
 	follow := G.ComputeFOLLOW(first)
-	for _, A := range nonTerms {
+	for i, A := range nonTerms {
 		fs := first(grammar.String[grammar.Symbol]{A})
 		var ts []string
 		for t := range fs.Terminals.All() {
@@ -231,6 +473,9 @@ func firstFollowLines(res *result, G *grammar.CFG, nonTerms []grammar.NonTermina
 			ts = append(ts, string(t))
 		}
 		res.add("FOLLOW %s = %s end=%v", A, sortedJoin(ts), fo.IncludesEndmarker)
+		if i%4 == 0 {
+			yield()
+		}
 	}
 	var nl []string
 	for A := range G.NullableNonTerminals().All() {
@@ -242,11 +487,14 @@ func firstFollowLines(res *result, G *grammar.CFG, nonTerms []grammar.NonTermina
 func wFirstFollow(seed uint64) *result {
 	r := newRng(seed)
 	res := &result{}
-	for i := 0; i < 3; i++ {
-		g := randomGrammar(r)
-		firstFollowLines(res, g.build(), g.nonTerms)
+	long := seed%2 == 1
+	for i := 0; i < 2; i++ {
+		g := randomGrammar(r, long, seed+uint64(i))
+		G := g.build()
+		yield()
+		firstFollowLines(res, G, g.nonTerms)
 	}
-	f := fixture(3, fmt.Sprint("_", seed%97))
+	f := fixture(3, seed, long)
 	firstFollowLines(res, f.build(), f.nonTerms)
 	return res
 }
@@ -257,12 +505,13 @@ func cfgLines(res *result, tag string, G *grammar.CFG) {
 		ps = append(ps, p.String())
 	}
 	res.add("%s start=%s prods=%s", tag, G.Start, sortedJoin(ps))
+	yield()
 }
 
 func wGrammarTransform(seed uint64) *result {
 	r := newRng(seed)
 	res := &result{}
-	g := randomGrammar(r)
+	g := randomGrammar(r, seed%2 == 1, seed)
 	G := g.build()
 	res.add("verify %v", G.Verify() == nil)
 	cfgLines(res, "orig", G)
@@ -285,8 +534,9 @@ func wGrammarTransform(seed uint64) *result {
 
 func wLL1(seed uint64) *result {
 	res := &result{}
-	f := fixture(3, fmt.Sprint("_", seed%89))
+	f := fixture(3, seed, seed%2 == 1)
 	G := f.build()
+	yield()
 	T, err := predictive.BuildParsingTable(G)
 	res.add("err %v", err != nil)
 	if T != nil {
@@ -300,6 +550,7 @@ func wLL1(seed uint64) *result {
 				}
 				res.add("M[%s,%s] = %s sync=%v empty=%v", A, a, ps, T.IsSync(A, a), T.IsEmpty(A, a))
 			}
+			yield()
 		}
 	}
 	return res
@@ -307,12 +558,13 @@ func wLL1(seed uint64) *result {
 
 func wLR(seed uint64, kind string) *result {
 	res := &result{}
-	which := []int{0, 1}
+	which := []int{0, 1, 4}
 	if kind != "slr" {
-		which = []int{0, 1, 2}
+		which = []int{0, 1, 2} // LALR / LR(1) of the large grammar are too slow under the race detector
 	}
-	f := fixture(which[int(seed%uint64(len(which)))], fmt.Sprint("_", seed%83))
+	f := fixture(which[int((seed/2)%uint64(len(which)))], seed, seed%2 == 1)
 	G := f.build()
+	yield()
 	var T *lr.ParsingTable
 	var err error
 	switch kind {
@@ -342,18 +594,32 @@ func wLR(seed uint64, kind string) *result {
 			}
 		}
 		res.add("state %d %s", s, strings.Join(row, " "))
+		if s%4 == 0 {
+			yield()
+		}
 	}
 	return res
 }
 
 // ---------------------------------------------------------------- the exported package-level Eq*/Cmp*/Hash* values
+// and the HashFuncFor* families of the hash package (each goroutine with hash functions of its own)
 
 func wHashAPI(seed uint64) *result {
 	r := newRng(seed)
 	res := &result{}
-	for i := 0; i < 200; i++ {
-		t := grammar.Terminal(fmt.Sprint("t", r.intn(50)))
-		n := grammar.NonTerminal(fmt.Sprint("N", r.intn(50)))
+	name := namer(seed%2 == 1, seed)
+	hs := hash.HashFuncForString[string](nil)
+	hss := hash.HashFuncForStringSlice[[]string](nil)
+	hi := hash.HashFuncForInt[int](nil)
+	his := hash.HashFuncForIntSlice[[]int](nil)
+	hu8 := hash.HashFuncForUint8Slice[[]uint8](nil)
+	hf := hash.HashFuncForFloat64[float64](nil)
+	hb := hash.HashFuncForBool[bool](nil)
+	h32 := hash.HashFuncForInt32[int32](nil)
+	hu64 := hash.HashFuncForUint64[uint64](nil)
+	for i := 0; i < 150; i++ {
+		t := grammar.Terminal(name("t", r.intn(50)))
+		n := grammar.NonTerminal(name("N", r.intn(50)))
 		body := grammar.String[grammar.Symbol]{t, n, t}
 		p := &grammar.Production{Head: n, Body: body}
 		q := &grammar.Production{Head: n, Body: grammar.String[grammar.Symbol]{n}}
@@ -366,6 +632,12 @@ func wHashAPI(seed uint64) *result {
 		res.add("a %d %d %v %d", automata.HashState(s), automata.HashSymbol(a), automata.EqState(s, 3), automata.CmpSymbol(a, 'k'))
 		ls := lr.State(r.intn(1000))
 		res.add("l %d %v %d", lr.HashState(ls), lr.EqState(ls, 4), lr.CmpState(ls, 9))
+		x := r.intn(1 << 30)
+		res.add("h %d %d %d %d %d %d %d %d %d", hs(name("s", x)), hss([]string{name("a", x), name("b", i)}), hi(x), his([]int{x, i, x}),
+			hu8([]uint8(name("u", x))), hf(float64(x)/3), hb(x%2 == 0), h32(int32(x)), hu64(uint64(x)))
+		if i%4 == 0 {
+			yield()
+		}
 	}
 	return res
 }
@@ -375,7 +647,7 @@ func wHashAPI(seed uint64) *result {
 func wAutomata(seed uint64) *result {
 	r := newRng(seed)
 	res := &result{}
-	n := 3 + r.intn(5)
+	n := 3 + r.intn(6)
 	alpha := []automata.Symbol{'a', 'b', 'c'}[:2+r.intn(2)]
 	var finals []automata.State
 	for s := 0; s < n; s++ {
@@ -400,9 +672,12 @@ func wAutomata(seed uint64) *result {
 		if r.intn(4) == 0 {
 			N.Add(automata.State(s), automata.E, []automata.State{automata.State(r.intn(n))})
 		}
+		yield()
 	}
 	D := N.ToDFA()
+	yield()
 	M := D.Minimize()
+	yield()
 	R := M.EliminateDeadStates().ReindexStates()
 	res.add("states nfa=%d min=%d", len(N.States()), len(M.States()))
 	res.add("symbols %v", D.Symbols())
@@ -424,12 +699,80 @@ func wAutomata(seed uint64) *result {
 			walk(append(append(automata.String{}, w...), a), depth-1)
 		}
 	}
-	walk(automata.String{}, 5)
+	walk(automata.String{}, 4)
 	res.add("accept %s", bits.String())
 	res.add("equal-clone %v %v", N.Equal(N.Clone()), D.Equal(D.Clone()))
 	res.add("back %d", len(D.ToNFA().States()))
 	U := N.Union(automata.NewNFA(0, []automata.State{0})).Star()
 	res.add("union-star accepts-empty %v", U.ToDFA().Accept(automata.String{}))
+
+	// a long chain: many states (the state-keyed tables grow), a* b a^m
+	m := pickSize(r, 70)
+	C := automata.NewNFA(0, []automata.State{automata.State(m + 1)})
+	C.Add(0, 'a', []automata.State{0})
+	C.Add(0, 'b', []automata.State{1})
+	for s := 1; s <= m; s++ {
+		C.Add(automata.State(s), 'a', []automata.State{automata.State(s + 1)})
+		if s%8 == 0 {
+			yield()
+		}
+	}
+	CD := C.ToDFA()
+	yield()
+	CM := CD.Minimize()
+	w := automata.String{'a', 'a', 'b'}
+	for i := 0; i < m; i++ {
+		w = append(w, 'a')
+	}
+	res.add("chain m=%d dfa=%d min=%d accepts %v %v", m, len(CD.States()), len(CM.States()), CM.Accept(w), CM.Accept(w[1:len(w)-1]))
+	return res
+}
+
+// ---------------------------------------------------------------- lexer input (two-buffer reader)
+
+func wLexerInput(seed uint64) *result {
+	r := newRng(seed)
+	res := &result{}
+	var text strings.Builder
+	words := pickSize(r, 1000)
+	for i := 0; i < words; i++ {
+		text.WriteString(longName("wörd", seed, r.intn(50))[:5+r.intn(30)])
+		if r.intn(6) == 0 {
+			text.WriteByte('\n')
+		} else {
+			text.WriteByte(' ')
+		}
+	}
+	for _, n := range []int{8, 64, 4096} {
+		in, err := input.New(fmt.Sprint("file", seed), strings.NewReader(text.String()), n)
+		if err != nil {
+			res.add("input n=%d err", n)
+			continue
+		}
+		runes, lexemes, lastLine := 0, 0, 0
+		for {
+			c, err := in.Next()
+			if err != nil {
+				if err != io.EOF {
+					res.add("input n=%d error %v", n, err)
+				}
+				break
+			}
+			runes++
+			if c == ' ' || c == '\n' {
+				_, pos := in.Lexeme()
+				lexemes++
+				lastLine = pos.Line
+				if lexemes%16 == 0 {
+					yield()
+				}
+			} else if runes%97 == 0 {
+				in.Retract()
+				in.Next()
+			}
+		}
+		res.add("input n=%d runes %d lexemes %d line %d", n, runes, lexemes, lastLine)
+	}
 	return res
 }
 
@@ -440,22 +783,23 @@ func wStructures(seed uint64) *result {
 	res := &result{}
 	cmpI := generic.NewCompareFunc[int]()
 	eqI := generic.NewEqualFunc[int]()
-	cmpS := generic.NewCompareFunc[string]()
 
-	xs := make([]int, 200)
+	xs := make([]int, pickSize(r, 1000)+8)
 	for i := range xs {
 		xs[i] = r.intn(1000) - 500
 	}
-	for name, f := range map[string]func([]int, generic.CompareFunc[int]){
-		"quick": algosort.Quick[int], "quick3": algosort.Quick3Way[int], "merge": algosort.Merge[int],
-		"heap": algosort.Heap[int], "shell": algosort.Shell[int], "insertion": algosort.Insertion[int]} {
+	for _, s := range []struct {
+		name string
+		f    func([]int, generic.CompareFunc[int])
+	}{{"quick", algosort.Quick[int]}, {"quick3", algosort.Quick3Way[int]}, {"merge", algosort.Merge[int]},
+		{"heap", algosort.Heap[int]}, {"shell", algosort.Shell[int]}, {"insertion", algosort.Insertion[int]}} {
 		ys := append([]int{}, xs...)
-		f(ys, cmpI)
-		res.add("sort %s %v", name, ys[:8])
+		s.f(ys, cmpI)
+		res.add("sort %s %v", s.name, ys[:8])
+		yield()
 	}
-	res.lines = sortedLines(res.lines) // map iteration above
 	ys := append([]int{}, xs...)
-	res.add("select %d", algosort.Select(ys, 17, cmpI))
+	res.add("select %d", algosort.Select(ys, 5, cmpI))
 	ys = append([]int{}, xs...)
 	radixsort.LSDInt(ys)
 	zs := append([]int{}, xs...)
@@ -471,59 +815,26 @@ func wStructures(seed uint64) *result {
 	radixsort.MSDString(ms)
 	res.add("radixstr %v %v", qs[:4], ms[:4])
 
-	for ti, t := range []symboltable.OrderedSymbolTable[string, int]{
-		symboltable.NewBST[string, int](cmpS, eqI), symboltable.NewAVL[string, int](cmpS, eqI), symboltable.NewRedBlack[string, int](cmpS, eqI)} {
-		for i, s := range ss {
-			t.Put(s, i)
-		}
-		for i := 0; i < 10; i++ {
-			t.Delete(ss[i])
-		}
-		k, _, _ := t.Min()
-		res.add("ordered %d size %d min %s rank %d", ti, t.Size(), k, t.Rank("k200"))
-	}
-	for ti, t := range []trie.Trie[int]{trie.NewBinary[int](eqI), trie.NewPatricia[int](eqI)} {
-		for i, s := range ss {
-			t.Put(s, i)
-		}
-		k, _, _ := t.Max()
-		res.add("trie %d size %d max %s", ti, t.Size(), k)
-	}
-	for hi, h := range []heap.Heap[int, int]{heap.NewBinary[int, int](4, cmpI, eqI), heap.NewBinomial[int, int](cmpI, eqI), heap.NewFibonacci[int, int](cmpI, eqI)} {
-		for i, x := range xs[:50] {
-			h.Insert(x, i)
-		}
-		var out []int
-		for i := 0; i < 5; i++ {
-			k, _, _ := h.Delete()
-			out = append(out, k)
-		}
-		res.add("heap %d %v", hi, out)
-	}
 	q := list.NewQueue[int](4, eqI)
 	st := list.NewStack[int](4, eqI)
-	for _, x := range xs[:30] {
+	sq := list.NewSoftQueue[int](eqI)
+	for i, x := range xs {
 		q.Enqueue(x)
 		st.Push(x)
+		sq.Enqueue(x)
+		if i%16 == 0 {
+			yield()
+		}
 	}
 	a, _ := q.Dequeue()
 	b, _ := st.Pop()
-	res.add("list %d %d %v", a, b, q.Contains(xs[5]))
+	c, _ := sq.Dequeue()
+	res.add("list %d %d %d %v %d", a, b, c, q.Contains(xs[5]), sq.Size())
 	for ui, u := range []unionfind.UnionFind{unionfind.NewQuickFind(50), unionfind.NewQuickUnion(50), unionfind.NewWeightedQuickUnion(50)} {
 		for i := 0; i < 30; i++ {
 			u.Union(r.intn(50), r.intn(50))
 		}
-		res.add("uf %d count-positive %v", ui, u.Count() > 0)
+		res.add("uf %d count %d connected %v", ui, u.Count(), u.IsConnected(1, 2))
 	}
 	return res
-}
-
-func sortedLines(ls []string) []string {
-	out := append([]string{}, ls...)
-	for i := 1; i < len(out); i++ {
-		for j := i; j > 0 && out[j] < out[j-1]; j-- {
-			out[j], out[j-1] = out[j-1], out[j]
-		}
-	}
-	return out
 }
